@@ -132,3 +132,44 @@ Theorem C14_source_impl_methods :
   methods_of "fmt::UpperHex for GenericArray<u8,N>" = Some ["fmt"].
 Proof. repeat split. Qed.
 
+
+(* ---- T3: the body of generic_hex, regenerated (coq/gen/GenHex.v), run by the interpreter of HexProg.v ---- *)
+From GA Require Import Hex HexProofs HexProg HexTie.
+From GAGen Require Import GenHex.
+Local Open Scope Z_scope.
+
+(* the function as it stands in src/hex.rs now IS the hub model: every encoder, both cases, every byte
+   list of every length, every precision (a usize) *)
+Theorem C14_source_generic_hex : forall enc upper arr prec, prec_ok prec ->
+  run_hex gen_generic_hex enc upper arr prec = generic_hex enc upper arr prec.
+Proof. exact tie_generic_hex. Qed.
+
+(* hence it hands the formatter exactly the 2N digits cut at the precision, reaching no unreachable hint,
+   unchecked index or non-ASCII str on the way (any of those would make the result UB, not Ret) *)
+Theorem C14_source_prints_digits : forall enc upper arr prec,
+  enc_contract enc -> Forall byte arr -> 2 * zlen arr < 2 ^ 64 -> prec_ok prec ->
+  run_hex gen_generic_hex enc upper arr prec = Ret (hex_spec upper arr prec).
+Proof. exact source_generic_hex_correct. Qed.
+
+(* LowerHex::fmt / UpperHex::fmt are generic_hex::<_, false / true>(self, f); hex_encode compiles the table
+   encoder exactly when faster-hex is off or under Miri, faster_hex's encoder of the same case otherwise *)
+Theorem C14_source_impls_and_encoder :
+  gen_hex_impls = [("LowerHex", false); ("UpperHex", true)]%string /\
+  gen_hex_encode =
+  [("", "debug_assert ! (dst . len () >= (src . len () * 2))");
+   ("# [cfg (any (miri , not (feature = ""faster-hex"")))]", "hex_encode_fallback :: < UPPER > (src , dst)");
+   ("# [cfg (all (feature = ""faster-hex"" , not (miri)))]",
+    "match UPPER { true => unsafe { faster_hex :: hex_encode_upper (src , dst) . unwrap_unchecked () } , false => unsafe { faster_hex :: hex_encode (src , dst) . unwrap_unchecked () } , }")]%string.
+Proof. exact (conj tie_hex_impls tie_hex_encode). Qed.
+
+(* ---- T1: the one-expression bodies this property's code consists of besides the modelled core, as they stand
+        in the source now (coq/gen/GenSigs.v gen_thin_bodies) ---- *)
+From Coq Require Import String.
+From GA Require Import SigTie.
+From GAGen Require Import GenSigs.
+Local Open Scope string_scope.
+
+Theorem C14_source_thin_bodies :
+  thin_of "fmt::LowerHex for GenericArray<u8,N>" "fmt" = Some "generic_hex :: < _ , false > (self , f)" /\
+  thin_of "fmt::UpperHex for GenericArray<u8,N>" "fmt" = Some "generic_hex :: < _ , true > (self , f)".
+Proof. repeat split. Qed.
